@@ -249,10 +249,11 @@ def build_body(spec, tag, name, call, force_final=False):
     return body
 
 
-def run_case(ex, observers=None):
+def run_case(ex, observers=None, conn_kw=None):
     """
     Run one example; returns (outcome, value-or-exception, adapter, bodies)
     outcome in 'returned' | 'error' (pywbem.Error) | 'leak' | 'local'
+    `observers(conn)` is called after the connection was created.
     """
     call = ex['call']
     bodies = []
@@ -280,6 +281,7 @@ def run_case(ex, observers=None):
           'stats_enabled': ex['conn'].get('stats', False)}
     if ex['conn']['dns']:
         kw['default_namespace'] = ex['conn']['dns']
+    kw.update(conn_kw or {})
     conn, adapter = connect(responder, **kw)
     if observers:
         observers(conn)
